@@ -14,7 +14,7 @@
 //        leaving the idle band of the first rendering by more than 327 LSB (-1 = none), "zc":[n,f_mHz,amp]
 //        number of rising crossings of the mean and the fundamental derived from them, measured from skip_ms.
 //   {"o":"ev","evs":[[t,ch,a,b],...]}   a burst of real-time events without rendering in between:
-//        t = 0 note-off(ch,key) 1 note-on(ch,key,vel) 2 controller(ch,num,val) 3 pitch bend(ch,lsb,msb)
+//        t = 0 note-off(ch,key) 1 note-on(ch,key,vel) 2 controller(ch,num,val) 3 pitch bend(ch,lsb,msb) 4 program(ch,p)
 //        Recorded: "nw":[writes per chip] requested through OPN2::writeReg* during the burst (hook H1),
 //        "kd":[[chipchannel,block,fnum],...] the channels whose last requested key write is key-on,
 //        with the last requested frequency, "rs": return values of the note-ons (1 = accepted) summed.
@@ -215,6 +215,7 @@ int main(int argc, char **argv)
                 else if(t == 1) rs += opn2_rt_noteOn(dev, (OPN2_UInt8)ch, (OPN2_UInt8)a, (OPN2_UInt8)b) ? 1 : 0;
                 else if(t == 2) opn2_rt_controllerChange(dev, (OPN2_UInt8)ch, (OPN2_UInt8)a, (OPN2_UInt8)b);
                 else if(t == 3) opn2_rt_pitchBendML(dev, (OPN2_UInt8)ch, (OPN2_UInt8)b, (OPN2_UInt8)a);
+                else if(t == 4) opn2_rt_patchChange(dev, (OPN2_UInt8)ch, (OPN2_UInt8)a);
                 else { fprintf(stderr, "INFRA: unknown event type %d\n", t); return 2; }
             }
         }
